@@ -499,8 +499,13 @@ def reference(stg, ax, sig, opts, ts_eval=None, cache=None):
         for e in edges:
             near |= np.abs(d - e) < eps
         excl = near.any(axis=(2, 3))
+    return exp, tolerance(ax, sig), excl
+
+
+def tolerance(ax, sig):
+    """Per-pixel bound on legitimate evaluation-order differences (DESIGN 1.5)."""
+    _, lip, _ = f_callable(ax, sig['f'])
     amp = amplitude_bound(ax, sig)
     # custom / array bandpass ramps have slope |a|/span per Hz
     blip = abs(sig['bp'].get('a', 0.0)) / ax.span if sig['bp']['kind'] in ('custom', 'array') else 0.0
-    tol = amp * ((lip + blip) * 64 * gen.ulp(ax.fs[-1]) + 1e-9)
-    return exp, tol, excl
+    return amp * ((lip + blip) * 64 * gen.ulp(ax.fs[-1]) + 1e-9)
